@@ -1,9 +1,11 @@
 (* C04 — handles are independent and memory-safe across threads, under every schedule.   (partial: see below) *)
 From Coq Require Import Lia Arith List Bool String.
-From LSConc Require Import Clock Mach Inv Top.
+From LSConc Require Import Clock Mach Inv Top Values.
 From LS Require Import Base Cmd Impl Proto ProtoOps Compose Programs Sched Legacy.
 From LSGen Require Import GenSrc.
 Import ListNotations.
+From LS Require Exec WF Spec Refine Main ThreadView.
+From LSProps Require C01.
 
 (* ---- tie A: the atomic call sites of the crate, regenerated from src/repr.rs and src/repr/heap_buffer.rs ---- *)
 Definition at_least_release (o : ord) : bool := match o with Release | AcqRel | SeqCst => true | _ => false end.
@@ -185,6 +187,44 @@ Example C04_execution_example :
   /\ forallb (fun x => match cur x, rest x with Ret _, [] => true | _, _ => false end) (tc final) = true.
 Proof. cbv zeta. split; [apply run_sched_sound|]. vm_compute. auto. Qed.
 
+(* ---- (8) "each thread reads back exactly what its own operations would produce sequentially".
+   The sequential interpreter (Cmd.run) reads every count as "the references of this thread's world + ext", where ext is
+   an arbitrary oracle consulted afresh at every atomic read; all of C01's theorems are proved for an arbitrary oracle.
+   So: from ANY well-formed world of a thread (its handles may share buffers with other threads), for EVERY history of its
+   operations and EVERY sequence of contributions of the other threads to the counts it reads, the thread's world stays
+   well-formed, nothing undefined is reached, and the texts and returned values are Spec's (String's). ---- *)
+Theorem C04_thread_results_sequential : forall w0 ops,
+  WF.WF w0 -> Forall (Main.op_wf (Cmd.statics (Exec.wmem w0))) ops ->
+  let '(w, outs) := Exec.execs w0 ops in
+  WF.WF w /\ Forall (fun o => forall u, o <> Exec.UbOut u) outs
+  /\ (forallb (fun o => negb (Spec.alloc_failure o)) outs = true ->
+      (WF.abs w, outs) = Main.spec_execs (Cmd.statics (Exec.wmem w0)) (WF.abs w0) ops).
+Proof. intros w0 ops. exact (ThreadView.thread_results_sequential w0 ops C01.C01_gen_ok). Qed.
+
+(* ---- (9) the link between the two: this oracle is how the other threads appear.  In the protocol machine every value an
+   atomic returns to thread t — the head of the modification order for its RMWs, any message a stale acquire load may
+   still read — is at least the number of references t holds ... ---- *)
+Theorem C04_rmw_reads_own_plus_rest : forall s t a s',
+  Inv.Inv s -> a = AClone \/ a = ARelease -> Mach.step s t a = Mach.Ok s' -> (Mach.refs (getth s t) <= val (hdm s))%nat.
+Proof. exact rmw_value_ge_refs. Qed.
+Theorem C04_load_reads_own_plus_rest : forall s t p m s',
+  Inv.Inv s -> Mach.step s t (AProbe p) = Mach.Ok s' -> nth_error (msgs s) p = Some m -> (Mach.refs (getth s t) <= val m)%nat.
+Proof. exact probe_value_ge_refs. Qed.
+(* ... and in every configuration a well-typed program reaches, the value handed to a thread's continuation by a load or
+   RMW of the shared count is that thread's own references (its ghost count) plus a non-negative rest *)
+Theorem C04_typed_values_own_plus_rest : forall b0 kof cf0 cf t s' c' g',
+  WT b0 kof cf0 -> csteps b0 cf0 cf -> (t < length (tc cf))%nat -> started (getth (ms cf) t) = true ->
+  estep b0 t (ms cf) (cur (gettc b0 cf t)) (gh (gettc b0 cf t)) s' c' g' ->
+  own_plus_rest b0 (gh (gettc b0 cf t)) (cur (gettc b0 cf t)) c'.
+Proof. exact typed_values_ge_own. Qed.
+
+(* non-vacuity of (8): a foreign reference visible at EVERY atomic read (the uniqueness test never succeeds, dropping the
+   last local handle frees nothing) and one that comes and goes: same texts and results as String *)
+Example C04_thread_view_example :
+  snd (Exec.execs (Exec.world0x [] (fun _ _ => false) ThreadView.busy) ThreadView.view_ops) = snd (Main.spec_execs [] [] ThreadView.view_ops)
+  /\ WF.abs (fst (Exec.execs (Exec.world0x [] (fun _ _ => false) ThreadView.flicker) ThreadView.view_ops)) = fst (Main.spec_execs [] [] ThreadView.view_ops).
+Proof. vm_compute. split; reflexivity. Qed.
+
 Print Assumptions C04_atomic_sites.
 Print Assumptions C04_protocol_safe_all_schedules.
 Print Assumptions C04_invariant.
@@ -209,3 +249,8 @@ Print Assumptions C04_shared_handles_released.
 Print Assumptions C04_legacy_reserve_refuted.
 Print Assumptions C04_example.
 Print Assumptions C04_execution_example.
+Print Assumptions C04_thread_results_sequential.
+Print Assumptions C04_rmw_reads_own_plus_rest.
+Print Assumptions C04_load_reads_own_plus_rest.
+Print Assumptions C04_typed_values_own_plus_rest.
+Print Assumptions C04_thread_view_example.
